@@ -143,6 +143,13 @@ class Renderer(object):
                 parts.append("F" + fmt(op["f"] / U.unit, 3))
             return [" ".join(parts)]
         if k == "retract":
+            if self.file_retracted and op.get("extra") and self.file_retract_len is not None and not op.get("fw"):
+                # a further retraction without an intervening recovery (Slic3r wipe + retract_layer_change)
+                self.file_retract_len += op["len"]
+                line = "G1 " + self._e_word(-op["len"])
+                if op.get("f") is not None:
+                    line += " F" + fmt(op["f"] / U.unit, 3)
+                return [line]
             if self.file_retracted:
                 return []
             self.file_retracted = True
@@ -316,7 +323,9 @@ class PrintWorld(Renderer):
     def before_call(self, call):
         if "C14" in self.mon or "C11" in self.mon:
             self._snap_before = state_snapshot(self.plugin.state)
-        self._pre = (self.plugin.state.excluding,)
+        lr = self.plugin.state.lastRetraction
+        self._pre = (self.plugin.state.excluding, lr is not None, bool(lr and lr.recoverExcluded),
+                     bool(lr and lr.allowCombine), None if lr is None or lr.firmwareRetract else lr.extrusionAmount)
 
     def on_call(self, call):
         self.call_index += 1
@@ -469,6 +478,22 @@ class PrintWorld(Renderer):
                 if synthesized and fcode in ("G10", "G11") and code in ("G10", "G11"):
                     if wc.split(None, 1)[1:] != cmd.split(None, 1)[1:]:
                         self.fail("C05", "params", "synthesised %r lost the parameters of %r" % (wc, cmd))
+        # ---- probes on the retraction state machine (reach measurement only, never a verdict)
+        if self._pre is not None:
+            lr = self.plugin.state.lastRetraction
+            (_ex, had, owed, comb, amt) = self._pre
+            now_owed = bool(lr and lr.recoverExcluded)
+            if not owed and now_owed:
+                self.stats["probe:recovery_skipped_now_owed"] += 1
+            if owed and lr is None and len(call.wire) > 1:
+                self.stats["probe:owed_recovery_paid"] += 1
+            if owed and lr is not None and not now_owed and not self.plugin.state.excluding and not call.wire[:0] \
+                    and code in ("G0", "G1", "G10"):
+                self.stats["probe:retraction_skipped_already_retracted"] += 1
+            if had and lr is not None and amt is not None and not lr.firmwareRetract and lr.extrusionAmount != amt:
+                self.stats["probe:retractions_combined"] += 1
+            if not had and lr is not None and self.plugin.state.excluding and call.wire and call.wire[-1] != cmd:
+                self.stats["probe:first_retraction_in_region_generated"] += 1
         # ---- per-call clauses
         if src == "file":
             rec = {"cmd": cmd, "fwd": bool(call.wire and call.wire[-1] == cmd),
